@@ -73,6 +73,11 @@ type simNode struct {
 	leaderID     int
 	opens        int
 	appliedCmds  int // commands applied in this incarnation
+	// pendingInstall: index of a snapshot that raft persisted on this node while
+	// the FSM's Restore (state transfer) for it has not completed; tainted: the
+	// node restarted and its start-up Restore trusted such a snapshot.
+	pendingInstall uint64
+	tainted        bool
 	// what this node's FSM durably holds, as far as the environment can tell:
 	// number of events after the last successful apply / restore
 	emitted []*protocol.Snapshot // snapshots pushed to the sender channel (C17 hand-off)
@@ -254,6 +259,10 @@ func (e *Env) startNode(nd *simNode) {
 			continue
 		}
 		nd.lastApplied, nd.lastSnapIdx, nd.lastSnapTerm = s.index, s.index, s.term
+		if nd.pendingInstall != 0 && nd.pendingInstall == s.index {
+			nd.tainted = true
+			e.r.Count("probe.startup_trusts_unfinished_install")
+		}
 		e.r.Count("probe.startup_restore")
 		break
 	}
@@ -805,6 +814,7 @@ func (e *Env) install(l, f *simNode, fault string, k int) string {
 	if len(f.snaps) > 2 {
 		f.snaps = f.snaps[len(f.snaps)-2:]
 	}
+	f.pendingInstall = s.index
 	e.r.Count("fault.install_snapshot")
 	e.r.Logf("%s -> %s: install snapshot %d/%d (fault=%s/%d)", l.name, f.name, s.index, s.term, fault, k)
 	if fault == "crash-after-persist" {
@@ -844,6 +854,7 @@ func (e *Env) install(l, f *simNode, fault string, k int) string {
 	}
 	l.matchIndex[f.id] = s.index
 	l.nextIndex[f.id] = s.index + 1
+	f.pendingInstall, f.tainted = 0, false
 	e.r.Count("probe.install_ok")
 	e.recalcCommit()
 	return "install-ok"
